@@ -3,6 +3,7 @@
 //   drv_oq_conc paths.txt     (configuration in each path's init line)
 #include <Vector/BLF/ObjectQueue.h>
 
+#include <fstream>
 #include "pathrun.h"
 
 using namespace Vector::BLF;
@@ -45,8 +46,71 @@ static std::string project(Fixture & f) {
     return o.str();
 }
 
+// M3 vector replay of spec/OQScale.tla:  drv_oq_conc scale <file>, one vector per line "<cap> <fill>"
+// The queue is filled directly (fill <= cap never waits); then a scheduled producer writes one more object and a
+// scheduled consumer reads one: whether the producer is held is the scheduler's exact verdict (parked on tellgChanged).
+static int scale_mode(const char * file) {
+    std::ifstream in(file);
+    long cap, fill, n = 0;
+    while (in >> cap >> fill) {
+        vsched::reset();
+        Fixture * f = new Fixture;
+        f->q.setBufferSize((uint32_t) cap);
+        for (long i = 1; i <= fill; i++) {
+            ObjectHeaderBase * o = new ObjectHeaderBase(1, ObjectType::UNKNOWN);
+            o->objectSize = (uint32_t) i;
+            f->q.write(o);
+        }
+        bool wrote = false;
+        int P = vsched::spawn([f, fill, &wrote] {
+            ObjectHeaderBase * o = new ObjectHeaderBase(1, ObjectType::UNKNOWN);
+            o->objectSize = (uint32_t) (fill + 1);
+            f->q.write(o);
+            wrote = true;
+        });
+        long steps = 0;
+        while (vsched::runnable(P) && steps++ < 1000) vsched::step(P);
+        bool held = !wrote && thread_state(*f, P) == "tellg";
+        long lenAfterWrite = (long) f->q.m_queue.size();
+        JObj o;
+        o.put("cap", cap).put("fill", fill).putb("held", held).put("lenAfterWrite", lenAfterWrite).puts("stP", thread_state(*f, P));
+        if (held) {
+            // only then is the state the one of the vector: read one object
+            long ret = -1;
+            int C = vsched::spawn([f, &ret] {
+                ObjectHeaderBase * r = f->q.read();
+                ret = r ? (long) r->objectSize : 0;
+                delete r;
+            });
+            steps = 0;
+            while (vsched::runnable(C) && steps++ < 1000) vsched::step(C);
+            o.put("ret", ret).put("gAfterRead", (long) f->q.m_tellg).put("lenAfterRead", (long) f->q.m_queue.size());
+            steps = 0;
+            while (vsched::runnable(P) && steps++ < 1000) vsched::step(P);
+            o.putb("releasedByRead", wrote);
+        }
+        printf("SCALE %s\n", o.str().c_str());
+        // release whatever is still parked, free the objects
+        f->q.abort();
+        for (int k = 0; k < 2000 && !vsched::all_finished(); k++)
+            for (int t = 0; t < vsched::nthreads(); t++)
+                if (vsched::runnable(t)) vsched::step(t);
+        if (vsched::all_finished()) {
+            while (!f->q.m_queue.empty()) { delete f->q.m_queue.front(); f->q.m_queue.pop(); }
+            delete f;
+        }
+        n++;
+    }
+    vsched::reset();
+    JObj r;
+    r.puts("driver", "oq_scale").put("paths", n).put("steps", n).put("mismatches", 0);
+    printf("RESULT %s\n", r.str().c_str());
+    return 0;
+}
+
 int main(int argc, char ** argv) {
     if (argc < 2) return 2;
+    if (std::string(argv[1]) == "scale") return argc > 2 ? scale_mode(argv[2]) : 2;
     std::vector<PPath> paths = load_paths(argv[1]);
     RunStats st;
     for (size_t pi = 0; pi < paths.size(); pi++) {
